@@ -111,6 +111,69 @@ PROPS = {
         "level_note": "Trusted: Coq kernel, extraction, harness; wall-clock margins. Modelled, not verified: client/circuit_breaker.go, "
                       "getCachedClient/generateClient breaker wiring.",
     },
+    "C03": {
+        "rule": "exhaustive response permutations for k<=4 (thorough k<=5) calls mixing Go/Call/SendRaw, with pushes carrying a pending "
+                "call's seq, unknown seqs and duplicates inserted, plus 350 (thorough 8000) random schedules over registration / encode / "
+                "write / cancel / frames / reader termination / Close, each forced step by step on the real client; distinct = distinct "
+                "model-input line; non-trivial = at least 2 calls or 4 events",
+        "theorems": ["C03_completed_by_own_response", "C03_strays_and_pushes_are_inert", "C03_pushes_in_order", "C03_invariant"],
+        "assumptions": ["sequentially consistent interleavings at the granularity of the client's own critical sections (client.mutex, one "
+                        "Conn.Write per frame, the single reader goroutine); weak-memory effects are not modelled",
+                        "Done channels have room for every call that shares them (the documented obligation of Go)",
+                        "the reduction argument of DESIGN.md section 3: the steps after a critical section touch only objects it made private"],
+        "trusted": ["/repo/verifhook (build tag verif): instrumentation points client.send.enter / client.send.exit gate and observe send()",
+                    "/repo/client/verif_export.go: VerifPendingLen, VerifPendingSeqs",
+                    "client.ConnFactories[\"vsim\"] (existing extension point): scripted transport owned by the harness",
+                    "harness/internal/refcodec builds the response frames"],
+        "level_text": "Theorems for every set of calls and EVERY schedule of the client state machine (one event per critical section): a "
+                      "completion by a response frame is by a frame with the call's own sequence number that is not a server message, and "
+                      "yields that frame's reply or service error; strays and pushes are inert; pushes arrive in order. The machine is run "
+                      "against the real client under forced schedules on every check.",
+        "level_note": "Trusted: Coq kernel, extraction, the forced-schedule rig and its hooks. Modelled, not verified: client/client.go "
+                      "(send, call, SendRaw, input, Close). Weak-memory behaviour is outside the model.",
+    },
+    "C05": {
+        "rule": "350 (thorough 8000) random schedules: 1-5 calls (Go, blocking Call, SendRaw, one-way), each stepping through "
+                "registration / encode ok or failure / write ok or failure, interleaved with response frames (ok, service error, wrong "
+                "type, unknown codec, pushes, strays), context cancellation, Close, reader termination (clean EOF, or cut inside header / "
+                "length / body); every run is driven to quiescence and every Done channel drained; distinct = distinct model-input line; "
+                "non-trivial = at least 2 calls or 4 events",
+        "theorems": ["C05_never_signalled_twice", "C05_no_call_left_hanging", "C05_rejected_promptly", "C05_invariants_reachable"],
+        "assumptions": ["sequentially consistent interleavings at the granularity of the client's own critical sections (client.mutex, one "
+                        "Conn.Write per frame, the single reader goroutine); weak-memory effects are not modelled",
+                        "Done channels have room for every call that shares them (the documented obligation of Go)",
+                        "the reduction argument of DESIGN.md section 3: the steps after a critical section touch only objects it made private"] + ["no-hang is the safety formulation 'gone and quiescent implies completed'; real-time promptness is not modelled",
+                        "premise of no-hang: no SendRaw used a caller-chosen sequence number equal to an in-flight one (collided = false)"],
+        "trusted": ["/repo/verifhook (build tag verif): instrumentation points client.send.enter / client.send.exit gate and observe send()",
+                    "/repo/client/verif_export.go: VerifPendingLen, VerifPendingSeqs",
+                    "client.ConnFactories[\"vsim\"] (existing extension point): scripted transport owned by the harness",
+                    "harness/internal/refcodec builds the response frames"],
+        "level_text": "Theorems for EVERY schedule: no call is ever signalled twice (invariant: a call is completed only by the step that "
+                      "removes its entry from the pending map under the mutex); once the connection is gone and no write is outstanding "
+                      "every started call has been completed exactly once; new calls are rejected at once. Run against the real client "
+                      "under forced schedules incl. the two schedules on which the unrepaired client signalled twice.",
+        "level_note": "Trusted: Coq kernel, extraction, rig and hooks. Modelled, not verified: client/client.go.",
+    },
+    "C06": {
+        "rule": "exhaustive victim/aggressor enumeration (victim first or later x aggressor in {cancelled before registration, after "
+                "registration, after write, unencodable argument, mistyped reply, one-way, service error, unknown codec, write failure} x 3 "
+                "relative orders) plus 350 (thorough 8000) random schedules with 2-3 calls; distinct = distinct model-input line; "
+                "non-trivial = at least 2 calls",
+        "theorems": ["C06_own_steps_are_local", "C06_received_frame_is_local", "C06_connection_not_torn_down"],
+        "assumptions": ["sequentially consistent interleavings at the granularity of the client's own critical sections (client.mutex, one "
+                        "Conn.Write per frame, the single reader goroutine); weak-memory effects are not modelled",
+                        "Done channels have room for every call that shares them (the documented obligation of Go)",
+                        "the reduction argument of DESIGN.md section 3: the steps after a critical section touch only objects it made private"],
+        "trusted": ["/repo/verifhook (build tag verif): instrumentation points client.send.enter / client.send.exit gate and observe send()",
+                    "/repo/client/verif_export.go: VerifPendingLen, VerifPendingSeqs",
+                    "client.ConnFactories[\"vsim\"] (existing extension point): scripted transport owned by the harness",
+                    "harness/internal/refcodec builds the response frames"],
+        "level_text": "Theorems for every reachable state and every event: a step of call a leaves every other call's record and pending "
+                      "entry unchanged (unless sequence numbers are shared via SendRaw), a received frame touches only the call registered "
+                      "under its seq whatever it carries, and only reader termination / Close change the connection state. Run against the "
+                      "real client incl. the two schedules on which the unrepaired client broke isolation.",
+        "level_note": "Trusted: Coq kernel, extraction, rig and hooks. Modelled, not verified: client/client.go.",
+    },
     "C12": {
         "rule": "exhaustive weight vectors (quick: n<=3,w<=4 and n=4,w<=2; thorough: n<=4,w<=6) from a random window "
                 "offset, round-robin sets n=0..8 from every cursor offset, and random update/selection histories over a "
